@@ -951,6 +951,7 @@ func runC10(c *Ctx) {
 		}
 		r.Check(ok, "R10.6", "Channel.initialize reader plumbing", c.Pos(ini.Pos()), got, "frame.ReadWriter literal in Channel.initialize must be {ByteReadWriter: ch.rwc, DialectRW: node.dialectRW, InKey: node.InKey}; got "+got)
 	}
+	ruleKeyPlumbing(c, "R10.7")
 	reads := callsNamed(rd, "(frame.Reader).Read")
 	r.Check(len(reads) == 1 && ex(reads[0].Common().Args[0]) == "recv.frameWriter.Reader", "R10.6", "runReader read source", c.Pos(rd.Pos()), "reads only from ch.frameWriter", "runReader must read frames from exactly one source, the channel's own frame reader")
 }
